@@ -1767,10 +1767,8 @@ class ProgramNormalizer:
                 fn.body = fix(fn.body)
         return n_total
 
-    def run(self):
-        focus = self.focus
-        if focus is None:
-            self.rename_back()
+    def propagate_all(self, focus=None):
+        """N1 for every (focused) module"""
         for mod, tree in self.trees.items():
             if focus is not None and mod not in focus:
                 continue
@@ -1782,6 +1780,12 @@ class ProgramNormalizer:
                     if c is not None:
                         imported[local] = c
             self.stats[mod]["constants_propagated"] = propagate_constants(tree, imported) + propagate_class_constants(tree)
+
+    def run(self):
+        focus = self.focus
+        if focus is None:
+            self.rename_back()
+        self.propagate_all(focus)
         self.rename_locals_back(only=focus)
         self.fold_new_temporaries(only=focus)
         if not self.known:
